@@ -56,6 +56,8 @@ def gen(r, stack=None, profile='mixed', idx=0):
     ep['reach'] = reach
     if r.random() < 0.3:
       ep['connect_delay'] = r.choice([1, 2, 5, 12, 40])
+    if r.random() < 0.15:
+      ep['send_delay'] = r.choice([1, 2, 4, 9])
     if r.random() < 0.15 and n_ep > 1:
       ep['member'] = False
     spec['endpoints'].append(ep)
@@ -68,6 +70,8 @@ def gen(r, stack=None, profile='mixed', idx=0):
     e = {'at': t, 'op': 'call', 'id': cid}
     if r.random() < 0.25:
       e['timeout'] = r.choice([1, 2, 5, 8, 20, 64])
+    if spec['open_timeout0'] and r.random() < 0.4:
+      e['direct'] = True
     evs.append(e)
   for _ in range(r.choice([0, 0, 0, 1, 2])):
     ep = r.choice(spec['endpoints'])
